@@ -719,11 +719,22 @@ class Exec:
         return [(p1, vs if isinstance(vs, Raise) else PyTuple(vs)) for p1, vs in self.seq(e.elts, p)]
 
     def ex_Dict(self, e, p):
-        if e.keys:
-            raise OutOfSubset("non-empty dict display")
-        oid = next(_cnt)
-        p.heap[oid] = {"cls": "builtins.dict", "origin": "fresh", "attrs": {"contents": z3.Const("emptydict", Val)}}
-        return [(p, PyDict(oid))]
+        if any(k is None for k in e.keys):
+            raise OutOfSubset("dict display with ** unpacking")
+        out = []
+        for p1, vs in self.seq(list(e.keys) + list(e.values), p):
+            if isinstance(vs, Raise):
+                out.append((p1, vs))
+                continue
+            n = len(e.keys)
+            cont = z3.Const("emptydict", Val)
+            put = z3.Function("dict_with", Val, Val, Val, Val)        # contents after d[k] = v (uninterpreted, in display order)
+            for k, v in zip(vs[:n], vs[n:]):
+                cont = put(cont, to_val(k), to_val(v))
+            oid = next(_cnt)
+            p1.heap[oid] = {"cls": "builtins.dict", "origin": "fresh", "attrs": {"contents": cont}}
+            out.append((p1, PyDict(oid)))
+        return out
 
     def _comprehension(self, e, p):
         """a comprehension the executor does not unfold: an UNINTERPRETED function (named after its source text) of the values of
